@@ -135,24 +135,41 @@ def tickT (sc : Scripts) (w : World) : World × List Ev × List String :=
         [if hbOn w.tflags then "chb.num_hb_to_do=0" else
            (if w.hbs.isEmpty then "chb.timer_flags-without-HEARTBEAT:empty" else "chb.timer_flags-without-HEARTBEAT:list-kept")])
 
+/-- call_heart_beat with its call_out dispatch -/
+def tickCoreT (sc : Scripts) (w : World) : World × List Ev × List String :=
+  match tickT sc w with
+  | (w2, e2, tg) =>
+    if e2.contains .tickAbort then (w2, e2, tg)
+    else
+      ((coDispatch (w2, e2)).1, (coDispatch (w2, e2)).2,
+       tg ++ (if coOn w2.tflags && !w2.co.isEmpty then ["call_out.dispatch-after-the-round"] else []) ++
+         (if coOn w2.tflags && (coDispatch (w2, e2)).2.any (fun e => match e with | .err _ => true | _ => false) &&
+             e2.any (fun e => match e with | .beat _ => true | _ => false)
+          then ["call_out.error-after-a-round-with-beats"] else []))
+
+def tickCmdT (sc : Scripts) (w : World) : World × List Ev × List String :=
+    match tickCore sc { w with cg := none, tflags := 0 } with
+    | (w0, e0) =>
+      match applyRp { w0 with tflags := w.tflags } with
+      | (w1, e1) =>
+        match tickCoreT sc w1 with
+        | (w2, e2, tg) =>
+          let tg := "backend.start-up-call" :: (e1.map (fun _ => "replace_programs:program-swapped")) ++ tg
+          if e2.contains .tickAbort then
+            match morePasses sc maxPass w2 with
+            | (w3, e3) => (w3, e0 ++ e1 ++ e2 ++ e3 ++ [.cgAfter w3.cg],
+                           tg ++ "backend.further-passes-after-error" ::
+                             (if e3.contains .tickBegin then ["backend.tick-served-right-after-an-abandoned-round"] else []) ++
+                             (if e3.contains .passLimit then ["backend.pass-limit"] else []))
+          else (w2, e0 ++ e1 ++ e2 ++ [.cgAfter w2.cg], tg)
+
 def stepCmdT (sc : Scripts) (w : World) : Cmd → World × List Ev × List String
-  | .tick =>
+  | .tick => if w.crashed then (w, [], []) else tickCmdT sc w
+  | .cotick cbs =>
     if w.crashed then (w, [], [])
     else
-      match tickCore sc { w with cg := none, tflags := 0 } with
-      | (w0, e0) =>
-        match applyRp { w0 with tflags := w.tflags } with
-        | (w1, e1) =>
-          match tickT sc w1 with
-          | (w2, e2, tg) =>
-            let tg := "backend.start-up-call" :: (e1.map (fun _ => "replace_programs:program-swapped")) ++ tg
-            if e2.contains .tickAbort then
-              match morePasses sc maxPass w2 with
-              | (w3, e3) => (w3, e0 ++ e1 ++ e2 ++ e3 ++ [.cgAfter w3.cg],
-                             tg ++ "backend.further-passes-after-error" ::
-                               (if e3.contains .tickBegin then ["backend.tick-served-right-after-an-abandoned-round"] else []) ++
-                               (if e3.contains .passLimit then ["backend.pass-limit"] else []))
-            else (w2, e0 ++ e1 ++ e2 ++ [.cgAfter w2.cg], tg)
+      match tickCmdT sc (coWorld w cbs) with
+      | (w', evs, tg) => ({ w' with tflags := w.tflags }, evs, "cotick" :: tg)
   | .op self op =>
     if w.crashed then (w, [], [])
     else if !w.known.contains self then (w, [.topNoObj self], [])
